@@ -213,6 +213,13 @@ def annotate_closures(body, table, rep):
         if n >= len(cls):
             raise AssembleError(f'{rep["item"]}: closure #{n} not found (body has {len(cls)} closures) — anchor lost')
         st, pe, bs, be, is_block = cls[n]
+        # the annotated header must name the same parameters as the closure it replaces: after an edit that
+        # adds / removes / reorders closures the ordinal would otherwise silently annotate another closure
+        orig_params = [x.strip().split(':')[0].strip() for x in body[st:pe].strip().strip('|').split(',') if x.strip()]
+        mh = re.match(r'\s*(?:move\s+)?\|([^|]*)\|', table[n])
+        hdr_params = [x.strip().split(':')[0].strip() for x in (mh.group(1) if mh else '').split(',') if x.strip()]
+        if orig_params != hdr_params:
+            raise AssembleError(f'{rep["item"]}: closure #{n} has parameters {orig_params}, the contract header expects {hdr_params} — anchor lost')
         inner = body[bs:be]
         new = table[n] + ' ' + (inner if is_block else '{ ' + inner.rstrip() + ' }')
         body = body[:st] + new + body[be:]
@@ -408,6 +415,12 @@ class Assembler:
                 # a LEAF item (nothing else in the unit calls it): if its anchors are lost after an edit, only
                 # this item becomes undecided instead of the whole unit
                 opts['optional'] = True
+            elif b == 'stubonloss':
+                # like `optional`, for an item OTHER items call: if its anchors are lost after an edit, it is emitted as an
+                # `external_body` stub carrying its contract (callers still verify against the contract) and is
+                # recorded as lost -> undecided for the properties that list it, instead of the whole unit
+                opts['optional'] = True
+                opts['stubonloss'] = True
             elif b == 'nocontract':
                 # the item is verified WITHOUT a contract (an item the template does not name, hosted outside
                 # its trait): recorded so that the check reports its failure as "new code without a contract",
@@ -473,6 +486,13 @@ class Assembler:
                 mi_ = re.search(r'impl(?:<[^{}]*?>)?\s+(?:[\w:<>\', ]+\s+for\s+)?([A-Za-z_]\w*)', ipath)
                 name = (mi_.group(1) + '::' if mi_ else '') + it.name
                 self.report.setdefault('lost_items', []).append({'name': name, 'reason': str(e)})
+                if opts.get('stubonloss'):
+                    o2 = dict(opts, closures={}, rewrites=[], ghostafter=[], ghoststmt=[], loops={}, prologue=[], rules=[], capture=[], dropbody=True, optional=False)
+                    rep2 = {'item': rep['item'], 'repo_line': rep['repo_line'], 'dropped': [], 'rules': {}, 'rewrites': []}
+                    stub = self.render_fn(sf, it, o2, rep2).rstrip()
+                    self.out.append((f'// (item {name}: anchor lost -- emitted as an external_body stub with its contract; undecided)', ('tpl', tplpos[0], tplpos[1])))
+                    self.emit('#[verifier::external_body]\n' + stub + '\n{ unimplemented!() }\n', ('tpl', tplpos[0], tplpos[1]))
+                    return
                 self.out.append((f'// (optional item {name} not extracted: anchor lost)', ('tpl', tplpos[0], tplpos[1])))
                 return
         elif it.kind == 'fn':
